@@ -108,6 +108,31 @@ func ensurePool(t testing.TB) []poolKey {
 			pool = append(pool, poolKey{idx: len(pool), bits: 2048, std: k, pub: pub, priv: sigref.RSAPrivate{RSAPublic: pub, D: d, P: pp, Q: qq}})
 			break
 		}
+		// the fixed 4096-bit key (every tier)
+		{
+			pp, ok1 := new(big.Int).SetString(fixed4096P, 16)
+			qq, ok2 := new(big.Int).SetString(fixed4096Q, 16)
+			if !ok1 || !ok2 {
+				t.Fatalf("harness: fixed RSA-4096 key does not parse")
+			}
+			n := new(big.Int).Mul(pp, qq)
+			d := new(big.Int).ModInverse(big.NewInt(65537), new(big.Int).Mul(new(big.Int).Sub(pp, one), new(big.Int).Sub(qq, one)))
+			if n.BitLen() != 4096 || d == nil {
+				t.Fatalf("harness: fixed RSA-4096 key has a %d-bit modulus", n.BitLen())
+			}
+			k := &stdrsa.PrivateKey{PublicKey: stdrsa.PublicKey{N: n, E: 65537}, D: d, Primes: []*big.Int{pp, qq}}
+			k.Precompute()
+			if err := k.Validate(); err != nil {
+				t.Fatalf("harness: fixed RSA-4096 key does not validate: %v", err)
+			}
+			for _, o := range pool {
+				if o.std.N.Cmp(n) == 0 {
+					t.Fatalf("harness: duplicate pool key")
+				}
+			}
+			pub := sigref.RSAPublic{N: n, E: 65537}
+			pool = append(pool, poolKey{idx: len(pool), bits: 4096, std: k, pub: pub, priv: sigref.RSAPrivate{RSAPublic: pub, D: d, P: pp, Q: qq}})
+		}
 	})
 	return pool
 }
